@@ -72,5 +72,13 @@ check("C04", "exploration",
       "produced only by dedicated probe programs and attributed by the audit hook's classification.",
       "Trusted: hook H1 (bypass = the engine's own by-name search; audit never changes the returned value). Known-finding attribution is per code path + circumstance.",
       "differential execution (cache on vs forced off) + online audit hook comparing cached and by-name resolution, under ASan", "DESIGN.md section 5 C04")
+check("C09", "fault_enumeration",
+      "For each of 200/10k generated programs (chailang + frame templates reaching callbacks through def, lambda, method, attribute-held "
+      "function, bind, for_each/map/filter/foldl, guards, operator overloads, [], constructors, eval strings, interpolation, catch/finally "
+      "bodies, loop conditions, switch, recursion) every invocation of a harness callback (first 60) is made to throw each of 8 exception "
+      "kinds in turn (~20k faulted runs per quick run); after each run the thread's stack shape (hook H2) equals the shape before, "
+      "get_locals() is exactly the declarations of completed top-level statements, and a sanity script evaluates.",
+      "Trusted: hook H2 (read-only accessor), mark() statements as statement-progress oracle. Size of the parked conversion saves is not asserted.",
+      "fault injection at every callback invocation + invariant check on hooked engine state, under ASan", "DESIGN.md section 5 C09")
 for _p in ["C%02d" % i for i in range(2, 21) if "C%02d" % i not in CHECKS]:
     NA[_p] = "check not implemented yet in this revision (work in progress, see DESIGN.md); nothing is claimed"
